@@ -307,8 +307,11 @@ class Check:
         ev = {"property_id": self.prop, "tier": self.tier, "seed": self.seed, "level": self.level,
               "coverage": cov, "assumptions": self.assumptions,
               "wall_s": round(time.time() - self.t0, 2), "violations": viol}
-        (ROOT / "evidence").mkdir(exist_ok=True)
-        (ROOT / "evidence" / f"{self.prop}.json").write_text(json.dumps(ev, indent=1, default=str) + "\n")
+        # evidence/ holds what was observed on /repo itself; a run against a scratch tree (VERIF_REPO) must not overwrite it
+        evdir = ROOT / "evidence" if REPO.resolve() == Path("/repo") else WORK / "evidence-scratch"
+        cov["tree_checked"] = tree_id()
+        evdir.mkdir(parents=True, exist_ok=True)
+        (evdir / f"{self.prop}.json").write_text(json.dumps(ev, indent=1, default=str) + "\n")
         for ln in lines:
             print(ln)
         print(f"[{self.prop}] tier={self.tier} seed={self.seed} theorems={n_ok}/{n_obl} "
@@ -316,6 +319,18 @@ class Check:
               f"mismatches={len(self.corr_mismatch)} violations={viol} wall={time.time() - self.t0:.1f}s")
         sys.stdout.flush()
         return 1 if viol else 0
+
+
+def tree_id() -> str:
+    """path, HEAD and dirty-state of the tree under test (recorded in the evidence)"""
+    try:
+        head = subprocess.run(["git", "-C", str(REPO), "rev-parse", "--short", "HEAD"], capture_output=True, text=True,
+                              check=False).stdout.strip()
+        dirty = subprocess.run(["git", "-C", str(REPO), "status", "--porcelain", "--untracked-files=no"],
+                               capture_output=True, text=True, check=False).stdout.strip()
+        return f"{REPO} @ {head}" + (" + uncommitted changes" if dirty else "")
+    except OSError:
+        return str(REPO)
 
 
 def run_in_child(fn, timeout_s: float):
